@@ -224,6 +224,7 @@ def build(tier):
         P.contract(VEC + "_async_worker", variant=f"step-actions-{kname}", setup=setup_a,
                    region=region("data = {", "observation, reward, terminated, truncated, info = env.step(data)"),
                    params={}, requires=[], frame_fields=False, ensures=[f"act_post_{kname}()"], replay="c12:actions")
+    P.lib["numpy.size"] = lambda ex, st, a, k: (a[0].numel() if isinstance(a[0], ND) else 1)       # number of elements (1 for a scalar)
     P.trusted.append(ndt.DOC)
 
     # PettingZooVecEnv.step: the batch of actions is split per environment without changing any value (continuous scalars stay floats)
